@@ -120,7 +120,7 @@ def gen_regdata(rng):
     flush()
     versions = [[rng.choice([0x31, 0x32, 0x36, 0x3D]), rng.randrange(65536)] for _ in range(rng.randrange(0, 3))]
     head = bytes([rng.randrange(256), rng.randrange(256), 0, 1, len(versions)]) + b"".join(bytes([c, v & 255, v >> 8]) for c, v in versions)
-    return schema, values, versions, bytes(head) + bytes(body) + bytes(rng.randrange(256) for _ in range(rng.choice([0, 0, 3])))
+    return schema, values, versions, bytes(head) + bytes(body) + bytes(rng.randrange(256) for _ in range(rng.choice([0, 0, 3]))), bytes(body)
 
 
 def expected_regdata(values):
@@ -178,8 +178,9 @@ class C05(Prop):
         for _ in range(n):
             cases.append({"kind": "sensor", "val": gen_sensor(rng, t), "trailing": [rng.randrange(256) for _ in range(rng.choice([0, 0, 2]))]})
         for _ in range(n):
-            schema, values, versions, payload = gen_regdata(rng)
-            cases.append({"kind": "regdata", "schema": schema, "values": values, "versions": versions, "payload": list(payload)})
+            schema, values, versions, payload, body = gen_regdata(rng)
+            cases.append({"kind": "regdata", "schema": schema, "values": values, "versions": versions, "payload": list(payload),
+                          "body": list(body)})
         for _ in range(n // 2):
             l = [[rng.randrange(65536), rng.randrange(17)] for _ in range(rng.choice([0, 1, 5, 40]))]
             cases.append({"kind": "schema", "val": l})
@@ -450,6 +451,11 @@ class C05(Prop):
             elif k == "regdata":
                 exp = [[list(x) for x in self._dict(c["versions"])], [[[i, v] for (i, _), v in zip(c["schema"], expected_regdata(c["values"]))]]]
                 ok = ok and d == exp
+                if "body" in c:
+                    # the layout the theorem C05_regdata is about (Spec/C05r.v) is the layout the generator wrote
+                    enc = model.call("enc_regdata", [[i, ty, (v if v[0] != 3 else [3, bytes(v[1])])]
+                                                     for (i, ty), v in zip(c["schema"], expected_regdata(c["values"]))])
+                    ok = ok and bool(enc[0]) and list(enc[1]) == list(c["body"])
             elif k == "schema":
                 names = t["data_types"]
                 ok = ok and d == ([[[i, names[ty]] for i, ty in c["val"]]] if c["val"] else [])
